@@ -219,3 +219,9 @@ def _(ctx):
 from contracts import c04 as _c04
 for _nm in _c04.FLAGGING:
     _c04.make_tachyon(_nm, 'C16')
+
+
+def fidelity(tier, seed):
+    """A-FRONT guard: THDM a_mu functions and getters, interpreter (float mode) vs compiled real code on real models"""
+    from gm2v import fidelity as _fid
+    return _fid.thdm_model_guard(seed=seed)
